@@ -42,10 +42,20 @@ def funcs(maxlen):
     fs.append(A.Func("s_out_then_char", A.VoidRes(), [(Over(A.CStrOut(), [5, 6, 9]), "d"), (A.CharVal(), "c")]))
     fs.append(A.Func("s_strout_then_in", A.VoidRes(), [(Over(A.StrOut("out"), [0, 4, 5, 6]), "d"), (Over(A.CStrIn(), short), "s")]))
     fs.append(A.Func("s_inout_then_in", A.VoidRes(), [(Over(A.CStrInout(), [t for t in nonempty if len(t) <= 2]), "d"), (Over(A.CStrIn(), short), "s")]))
-    for i, text in enumerate(["", "x", "hey you", "trail  "]):
+    # string results of functions that also take arguments (the result's attributes, not the last argument's, decide its shape)
+    T = A.NATIVE
+    for rname, res in (("clen", A.CStrRes("hey you", 10)), ("slen", A.StrRes("val", "hey you", 10)), ("rlen", A.StrRes("cref", "hey you", 4)),
+                       ("c", A.CStrRes("hey you")), ("s", A.StrRes("val", "result")), ("r", A.StrRes("cref", "refres"))):
+        fs.append(A.Func("s_res_%s_int" % rname, res, [(A.Val(T["int"]), "n")]))
+        fs.append(A.Func("s_res_%s_str" % rname, res, [(Over(A.CStrIn(), ["ab", ""]), "s")]))
+        fs.append(A.Func("s_res_%s_int_str" % rname, res, [(A.Val(T["int"]), "n"), (Over(A.StrIn("cref"), ["ab"]), "s")]))
+    # texts on both sides of std::string's small-buffer size (15): longer ones live on the heap, so a result that is read
+    # after its owner was released shows
+    for i, text in enumerate(["", "x", "hey you", "trail  ", "exactly 15 chars", "a result longer than sixteen characters"]):
         fs.append(A.Func("s_res_cstr%d" % i, A.CStrRes(text), []))
         fs.append(A.Func("s_res_str%d" % i, A.StrRes("val", text), []))
         fs.append(A.Func("s_res_ref%d" % i, A.StrRes("cref", text), []))
+        fs.append(A.Func("s_res_own%d" % i, A.StrRes("cptr_caller", text), []))
         for flen in (1, 4, 7, 12):
             fs.append(A.Func("s_res_len%d_%d" % (i, flen), A.CStrRes(text, flen), []))
             # std::string results into a fixed-length variable (by value and by reference)
